@@ -34,7 +34,8 @@ CONSTANTS Qs,         \* set of qubit indices used by the generator (gaps allowe
           PhaseK,     \* angle indices for PHASE CPHASE
           MaxCtrl,    \* maximal number of controls (1 or 2)
           VarSet,     \* variational flags offered for parameterised gates, e.g. {FALSE} or {FALSE, TRUE}
-          Mode,       \* "free": any gate may follow; "pairs": the 2nd gate acts on the same targets/controls as the 1st
+          Mode,       \* "free": any gate may follow; "pairs": the 2nd gate acts on the same targets/controls as the 1st;
+                      \* "sandwich": g1 ; p* ; m ; g' (see Sandwich below)
           Export      \* BOOLEAN
 
 \* named angle sets (cfg files cannot contain negative numbers)
@@ -46,6 +47,8 @@ PhaseKFull  == (-M)..(2 * M)
 PhaseKMid   == { -M, -1, 0, 1, 3, M \div 2, M - 1, M, M + 1 }
 PhaseKSmall == { -1, 0, 1, M \div 2, M }
 PhaseKTiny  == { 1, M - 1 }
+RotKGen     == { -2, 2, 6 }            \* generic (non-Clifford for M = 16) angles and one inverse pair
+PhaseKGen   == { -1, 1, 3 }
 VarBoth     == {FALSE, TRUE}
 VarNo       == {FALSE}
 
@@ -70,8 +73,40 @@ Alphabet ==
 
 Init == circ = <<>>
 
+\* ---- "sandwich" mode: interleaving patterns --------------------------------------------------------------------
+\* A sandwich is  g1 ; p_1 .. p_k ; m ; g'  where
+\*   g1  is any gate of the alphabet (a rotation on one qubit, a controlled rotation, CNOT, SWAP, ...),
+\*   p_j are parameter-free one-qubit gates on pairwise distinct qubits that g1 does not touch (k = 0 .. MaxLen - 3):
+\*       they give the other qubits of m a previous gate that DIFFERS from g1,
+\*   m   is a gate that shares a qubit with g1 and with every p_j but has other targets/controls than g1 (a controlled
+\*       gate whose control or target is g1's qubit, a 2-control gate, SWAP, XX, or a one-qubit gate on a subset of g1's qubits),
+\*   g'  acts on exactly g1's targets and controls and has a related name (same name: mergeable / cancelling rotations and
+\*       self-inverse gates, CNOT~CX, S or T followed by PHASE).
+\* Every pass that tracks "the last gate on each qubit" (merge, cancel, simplify) must see m between g1 and g'.
+Place(g)   == <<g.t, g.c>>
+MPosSet    == {j \in 2..Len(circ) : QSet(circ[j]) \cap QSet(circ[1]) # {}}
+HasM       == Len(circ) >= 2 /\ MPosSet # {}
+MPos       == SetMin(MPosSet)
+PQubits    == UNION {QSet(circ[j]) : j \in 2..Len(circ)}
+RelatedName(a, b) == \/ a.name = b.name
+                     \/ (a.name \in {"CNOT", "CX"} /\ b.name \in {"CNOT", "CX"})
+                     \/ (a.name \in {"S", "T"} /\ b.name = "PHASE")
+SandwichStep(g) ==
+  IF Len(circ) = 0 THEN TRUE
+  ELSE IF ~HasM
+       THEN \/ /\ Len(circ) <= MaxLen - 3                       \* p-gate
+               /\ g.name \in Names0 /\ Len(g.c) = 0
+               /\ QSet(g) \cap (QSet(circ[1]) \cup PQubits) = {}
+            \/ /\ QSet(g) \cap QSet(circ[1]) # {}               \* m
+               /\ Place(g) # Place(circ[1])
+               /\ \A j \in 2..Len(circ) : QSet(g) \cap QSet(circ[j]) # {}
+       ELSE /\ Len(circ) = MPos                                 \* g'
+            /\ Place(g) = Place(circ[1]) /\ RelatedName(circ[1], g)
+SandwichComplete == HasM /\ Len(circ) = MPos + 1
+
 Step(g) == /\ Len(circ) < MaxLen
            /\ (Mode = "pairs" /\ Len(circ) >= 1 => (g.t = circ[1].t /\ g.c = circ[1].c))
+           /\ (Mode = "sandwich" => SandwichStep(g))
            /\ circ' = Append(circ, g)
 
 Next == \E g \in Alphabet : Step(g)
@@ -113,4 +148,12 @@ SplitLemma      == LET comps == CompSeq(Components(circ))
 \* ---- G: export ---------------------------------------------------------------------------------------
 ExportAll == Export => PrintT(<<"CIRC", ToJson(circ)>>)
 ExportEnd == (Export /\ Len(circ) = MaxLen) => PrintT(<<"CIRC", ToJson(circ)>>)
+ExportSandwich == (Export /\ SandwichComplete) => PrintT(<<"CIRC", ToJson(circ)>>)
+\* S on complete sandwiches only (the prefixes are covered by the other runs)
+SandwichOK == SandwichComplete =>
+                 /\ EquivOnS(MergeAlgo(circ), circ, Qs)
+                 /\ EquivOnS(CancelAlgo(circ, TRUE), circ, Qs)
+                 /\ EquivOnS(SimplifyAlgo(circ, 0, TRUE), circ, Qs)
+\* the interleaved gate blocks: the models neither merge nor cancel anything in a sandwich
+SandwichBlocks == SandwichComplete => Len(MergeAlgo(circ)) = Len(circ) /\ Len(CancelAlgo(circ, TRUE)) = Len(circ)
 =============================================================================
